@@ -207,7 +207,7 @@ def run(ctx):
     rm.api_leaves_replay_state_clause(ctx, res, 'C03', 'C03.j')
     rm.ordinals_only_when_intercepted_clause(ctx, res, 'C03', 'C03.k')
     from . import common as _ci
-    _ci.import_clauses(ctx, res, 'C20', ['C20.a', 'C20.e'], 'C03', 'C03.m', 'R-DECISION',
+    _ci.import_clauses(ctx, res, 'C20', ['C20.a', 'C20.e', 'C20.f'], 'C03', 'C03.m', 'R-DECISION',
                        'file data handler: content is captured for every file within the configured limit (limit source and size test)', floor=4)
     _ci.import_clauses(ctx, res, 'C11', ['C11.b'], 'C03', 'C03.n', 'R-WHOCALLS',
                        'recorded outputs handed to the caller of play() are copies: the stored entries cannot be changed through them', floor=1)
